@@ -46,6 +46,7 @@ type vfScriptServer struct {
 	files    map[string][]byte
 	dirs     map[string][]string // dir -> entry names
 	handles  map[string]*ssHandle
+	hangupEarly bool // once the client has closed its side the peer may hang up at any moment, requests unanswered or not
 	noSync     func(path string) bool // fsync requests naming a handle of such a file are answered "unsupported"
 	nextH    int
 	exts     [][2]string
@@ -121,13 +122,16 @@ func (s *vfScriptServer) events(add func(string, func())) {
 		if s.inOrder && i > 0 {
 			break
 		}
+		if s.hangupEarly && s.closedByPeer {
+			break // the peer has hung up: what it had not answered stays unanswered
+		}
 		if s.hold != nil && s.hold(r) {
 			continue
 		}
 		r := r
 		add(fmt.Sprintf("p:answer:%010d", r.q.ID), func() { s.answer(r) })
 	}
-	if !s.closedByPeer && s.c2s.wclosed && len(s.pending) == 0 {
+	if !s.closedByPeer && s.c2s.wclosed && (len(s.pending) == 0 || s.hangupEarly) {
 		add("p:close", func() {
 			s.mu.Lock()
 			s.closedByPeer = true
